@@ -248,6 +248,7 @@ META = {
         'more than 3 queries / trains of more than 3 packets; QU questions and non-5353 sources (C11)',
         'the host hearing its own multicast (no loopback in the harness: sightings are initial cache state)',
         'exact upper bound for a timer-released truncated train: checked as last packet + 400 .. + 1000 ms',
+        'previous sightings combined with truncated trains (which packet of the train counts as "the query arrived" is not fixed by the statement)',
     ],
     'stubs': env.STUBS,
     'float_sites': [],
